@@ -668,7 +668,7 @@ def gen_illegal(rng, sim):
 
 class C13(flow.Spec):
     prop = 'C13'
-    props_files = ['theories/Props/C13.v', 'theories/Props/C13_examples.v', 'theories/Props/C13_trans.v', 'theories/Props/C13_trans_q.v', 'theories/Props/C13_trans_find.v', 'theories/Props/C13_trans_examples.v']
+    props_files = ['theories/Props/C13.v', 'theories/Props/C13_examples.v', 'theories/Props/C13_trans.v', 'theories/Props/C13_trans_q.v', 'theories/Props/C13_trans_find.v', 'theories/Props/C13_trans_opcode.v', 'theories/Props/C13_trans_examples.v']
     model_targets = ['theories/Aml/Tree.vo']
     pkg = 'device/acpi/aml'
     harness = [os.path.join(H, 'zz_verif_c13_test.go')]
